@@ -339,8 +339,27 @@ func (x *verFn) emit(b *strings.Builder, doc, term string) {
 	fmt.Fprintf(b, "def %s_effects : List String := %s\n\n", x.name, strList(x.effects.names))
 }
 
-// verBody: the decision tree of a plain function / method body.
+// verBody: the decision tree of a plain function / method body. A function the walker cannot handle is recorded as
+// `<name>_problem` (only the Tie theorems about that function stop building).
 func verBody(b *strings.Builder, p *pkg, recv, fn, leanName string) {
+	var own strings.Builder
+	func() {
+		defer func() {
+			if r := recover(); r != nil {
+				fe, ok := r.(fatalErr)
+				if !ok {
+					panic(r)
+				}
+				own.Reset()
+				fmt.Fprintf(&own, "/-- the extraction of this function FAILED (fails closed) -/\ndef %s_problem : String := %s\n\n", leanName, leanStr(fe.msg))
+			}
+		}()
+		verBody1(&own, p, recv, fn, leanName)
+	}()
+	b.WriteString(own.String())
+}
+
+func verBody1(b *strings.Builder, p *pkg, recv, fn, leanName string) {
 	d := p.fn(recv, fn)
 	x := newVerFn(leanName, d)
 	x.countAssignments(d.Body)
